@@ -389,3 +389,5 @@ def check(ctx):
                 r = q.end[1]
                 ok = r[0] == "tuple" and S.fstr(r[1][0]).endswith(".0") and S.fstr(r[1][1]).endswith(".1")
                 ctx.ob("C06.h", "ScannerMode::new-maps-(token type, mode)-in-that-order", ok, "pair := %s" % S.fstr(r)[:80], c.loc())
+    from .common import cache_foundation
+    cache_foundation(ctx)
